@@ -4,10 +4,11 @@ set -e
 export GOFLAGS=-mod=mod GOPROXY=off GOSUMDB=off GOTOOLCHAIN=local
 mod=$1; tst=$2; budget=${3:-5}; seed=${4:-1}
 ov=""
-if [ "$mod" = exp ] && [ -z "$VERIF_NO_LOCKINST" ]; then
-  ovd=$(mktemp -d /tmp/verif-lockinst-XXXXXX); o=$(python3 /verif/tools/lockinst.py /repo $ovd 2>/dev/null); [ -n "$o" ] && ov="-overlay $o"
+tags=verif
+if [ -z "$VERIF_NO_LOCKINST" ]; then
+  ovd=$(mktemp -d /tmp/verif-lockinst-XXXXXX); o=$(python3 /verif/tools/lockinst.py /repo $ovd 2>/dev/null); [ -n "$o" ] && ov="-overlay $o" && tags=verif,lockinst
 fi
-cd /verif/sim/$mod && go1.26.8 test -tags verif $ov -c -o /verif/.build/$mod.test . 
+cd /verif/sim/$mod && go1.26.8 test -tags $tags $ov -c -o /verif/.build/$mod.test . 
 [ -n "$ovd" ] && rm -rf "$ovd"
 mkdir -p /verif/.work
 cd /verif
